@@ -242,6 +242,11 @@ def acquire_post():
             ('failed_attempt_keeps_nothing', {'C12', 'C02'}, exc_leaves_no_residue),
             ('only_a_failing_close_propagates', {'C12'}, exc_only_from_close),
         ],
+        'KeyboardInterrupt': [
+            ('interrupted_attempt_keeps_nothing', {'C12', 'C02'}, exc_leaves_no_residue),
+            ('only_an_interrupt_of_the_wait_propagates', {'C12'},
+             lambda E, a, old, exc: z3.BoolVal(exc.info.get('origin') == 'interrupt')),
+        ],
     }
 
 
@@ -269,7 +274,9 @@ SPEC_ACQUIRE = Spec(
     MOD + '.BaseFileLock.acquire',
     params=[('self', None), ('blocking', VBool(True)), ('timeout', NONE), ('poll_interval', VReal(z3.RealVal('0.05')))],
     pre=acquire_pre(), post=acquire_post(), frame=acquire_frame,
-    ret=lambda E, a, kind: E.fresh_bool('acquired') if kind == 'return' else E.mk_exc('OSError', origin='os.close'),
+    ret=lambda E, a, kind: (E.fresh_bool('acquired') if kind == 'return' else
+                            E.mk_exc('OSError', origin='os.close') if kind == 'OSError' else
+                            E.mk_exc('KeyboardInterrupt', origin='interrupt')),
 )
 
 
@@ -414,6 +421,19 @@ def base_engine(E, inline_all=True):
     E.inline_prefixes = (MOD + '.BaseFileLock._', MOD + '.UnixFileLock._')
     E.hooks[(q + 'acquire', 'loop', 0)] = acquire_poll_loop
     E.hooks[(q + 'release', 'loop', 0)] = release_levels_loop
+    # a blocked thread can be interrupted: time.sleep() either sleeps its time or is cut short by a
+    # KeyboardInterrupt (BaseException-only), the way Ctrl-C / a signal handler reaches the main thread
+    plain_sleep = E.builtins[('import', 'time')].attrs['sleep']
+
+    def sleep(E_, args, kw):
+        if E_.choose([('slept', None), ('interrupted', None)], 'time.sleep') == 'slept':
+            return (plain_sleep.fn if isinstance(plain_sleep, VStub) else plain_sleep)(E_, args, kw)
+        E_.effect('time.sleep', args[0])
+        stubs.advance(E_, hi=stubs._real(args[0]))
+        E_.throw('KeyboardInterrupt', origin='interrupt')
+    sl = VStub('time.sleep', sleep)
+    E.builtins[('import', 'time')].attrs['sleep'] = sl
+    E.builtins[('import', 'time:sleep')] = sl
 
 
 def method(E, name):
@@ -537,7 +557,12 @@ def t_enter(E):
                                    lambda E, a, old, exc: z3.If(
                                        old_view(E, a.self, old)['mine'],
                                        _unchanged(old_view(E, a.self, old), view(E, a.self)),
-                                       _nothing_kept(old_view(E, a.self, old), view(E, a.self))))]})
+                                       _nothing_kept(old_view(E, a.self, old), view(E, a.self))))],
+                      'KeyboardInterrupt': [('interrupted_attempt_keeps_nothing', {'C12'},
+                                             lambda E, a, old, exc: z3.If(
+                                                 old_view(E, a.self, old)['mine'],
+                                                 _unchanged(old_view(E, a.self, old), view(E, a.self)),
+                                                 _nothing_kept(old_view(E, a.self, old), view(E, a.self))))]})
     E.run_paths(lambda: prove(E, spec, f, lambda E: Args(dict(self=mk_self(E)))))
 
 
@@ -556,7 +581,13 @@ def t_exit(E):
     spec = Spec(f.qualname, params=[('self', None), ('et', NONE), ('ev', NONE), ('tb', NONE)],
                 pre=release_pre(),
                 post={'return': [('releases_exactly_one_level', {'C12', 'C02'}, post)]})
-    E.run_paths(lambda: prove(E, spec, f, lambda E: Args(dict(self=mk_self(E), et=NONE, ev=NONE, tb=NONE))))
+
+    def setup(E):
+        # the with-block ended normally (None, None, None) or by an exception (type, value, traceback)
+        raised = E.fresh('with_body_raised', z3.BoolSort())
+        mk = lambda n: VOpt(z3.Not(raised), E.fresh_val(n))   # noqa: E731
+        return Args(dict(self=mk_self(E), et=mk('exc_type'), ev=mk('exc_value'), tb=mk('traceback')))
+    E.run_paths(lambda: prove(E, spec, f, setup))
 
 
 def t_acquire_ctx(E):
@@ -620,7 +651,9 @@ def t_acquire_ctx(E):
                      props={'C02', 'C12'})
             if kind == 'raise':
                 E.oblige('%s/signals.TimeoutError_iff_acquire_returned_False' % f.qualname,
-                         z3.BoolVal(E.exc_isinstance(exc, EXC['OSError']) is True), props={'C12'})
+                         z3.BoolVal(E.exc_isinstance(exc, EXC['OSError']) is True or
+                                    exc.info.get('origin') == 'interrupt'), props={'C12'},
+                         detail='(or the interrupt that cut the wait short)')
                 E.oblige('%s/signals.not_acquired_keeps_nothing' % f.qualname,
                          z3.If(v0['mine'], _unchanged(v0, v1), _nothing_kept(v0, v1)), props={'C12'})
     E.run_paths(body)
